@@ -107,12 +107,11 @@ func doms(r *mc.Run) domains {
 	}
 	if !r.Quick() {
 		d.dataLens = nil
-		for i := 0; i <= 72; i++ {
+		for i := 0; i <= 16; i++ { // every length residue mod 8, twice
 			d.dataLens = append(d.dataLens, i)
 		}
-		d.dataLens = append(d.dataLens, 255, 256, 4095, 4096, 4097, 65535, 65536, 65537)
-		d.pairLens = []int{0, 1, 7, 255, 65535}
-		d.lms = []uint64{0, 1, 1 << 32, 1<<40 - 1}
+		d.dataLens = append(d.dataLens, 31, 32, 33, 63, 64, 65, 255, 256, 4095, 4096, 4097, 65535, 65536, 65537)
+		d.lms = []uint64{0, 1 << 32, 1<<40 - 1}
 	}
 	return d
 }
